@@ -243,6 +243,33 @@ def compare_handles(name, pts, vals, against_derivative=False):
     return None
 
 
+# ------------------------------------------------------------------ numeric tie decided in Coq (Proofs/C12HandleNum.v)
+_HORDER = ["gaussian", "bernoulli_odds", "bernoulli_logit", "poisson", "poisson_log", "rayleigh", "gamma", "huber", "negative_binomial", "beta"]
+
+
+def coq_handles(name, pts, vals):
+    """Gallina bool: hnum_check (interval evaluation of the GENERATED handle, sound over R: hnum_check_sound) accepts pyttb's
+    float results [loss, grad] at every point with tolerance 1e-9 * max(1, |value|).  huber: the branch and the sign of
+    data - model are hints computed here exactly; the checker verifies them before use."""
+    from vcheck import gz
+    hid = 2 * _HORDER.index(name)
+    out = []
+    for p, fg in zip(pts, vals):
+        q = [Fraction(v) for v in p] + [Fraction(0)] * (3 - len(p))
+        below = pos = False
+        if name == "huber":
+            below = abs(q[0] - q[1]) < q[2]
+            pos = q[0] - q[1] > 0
+        for k, v in enumerate(fg):
+            if v != v or v in (float("inf"), float("-inf")):
+                return "false"
+            ob = Fraction(float(v))
+            tol = Fraction(math.ceil(max(1, abs(ob))), 10 ** 9)
+            zs = [q[0].numerator, q[0].denominator, q[1].numerator, q[1].denominator, q[2].numerator, q[2].denominator,
+                  ob.numerator, ob.denominator, tol.numerator, tol.denominator]
+            out.append(f"hnum_check {hid + k} {'true' if below else 'false'} {'true' if pos else 'false'} " + " ".join(gz(z) for z in zs))
+    return "(" + " && ".join(out) + ")" if out else "true"
+
 # ------------------------------------------------------------------ brute-force oracle for tensor-level operations
 def _all_subs(shape):
     import itertools
@@ -335,7 +362,7 @@ def run_estimate_lam(a, fac, f, g):
     from pyttb.gcp import fg, fg_est
     lam = np.array(a["lam"], dtype=float)
 
-    def model():          # estimate normalises the caller's model in place: a fresh one per call
+    def model():          # a fresh model per call (since /repo dc891f8 estimate normalises a COPY; see "kept" / "again" below)
         return ttb.ktensor([x.copy() for x in fac], lam.copy())
     shp = a["shape"]
     if a["mode"] == "full":
@@ -353,7 +380,16 @@ def run_estimate_lam(a, fac, f, g):
         F, G = fg_est.estimate(model(), subs.copy(), xs.copy(), ws.copy(), f, g, a["lcheck"], None if crng is None else crng.copy())
         F1 = fg_est.estimate(model(), subs.copy(), xs.copy(), ws.copy(), f, None, a["lcheck"], None if crng is None else crng.copy())
         G1 = fg_est.estimate(model(), subs.copy(), xs.copy(), ws.copy(), None, g, a["lcheck"], None if crng is None else crng.copy())
-    o = {"F": fr(F), "G": mats(G), "F1": fr(F1), "G1": mats(G1)}
+        # second use of ONE model object (history class): the caller's model must be what it was (weights and factors bit for bit;
+        # fg_est.estimate normalises a copy since /repo dc891f8) and the second answer must be the first
+        M = model()
+        cr = lambda: None if crng is None else crng.copy()
+        Fa, Ga = fg_est.estimate(M, subs.copy(), xs.copy(), ws.copy(), f, g, a["lcheck"], cr())
+        kept = bool(np.array_equal(M.weights, lam) and len(M.factor_matrices) == len(fac)
+                    and all(np.array_equal(x, y) for x, y in zip(M.factor_matrices, fac)))
+        Fb, Gb = fg_est.estimate(M, subs.copy(), xs.copy(), ws.copy(), f, g, a["lcheck"], cr())
+        again = bool(fr(Fa) == fr(Fb) == fr(F) and mats(Ga) == mats(Gb) == mats(G))
+    o = {"F": fr(F), "G": mats(G), "F1": fr(F1), "G1": mats(G1), "kept": kept, "again": again}
     if a["mode"] == "full":
         X = ttb.tensor(np.array(a["data"], dtype=float).reshape(tuple(shp), order="F"))
         o["F2"] = fr(fg.evaluate(model(), X, None, f, None))
@@ -390,6 +426,8 @@ def check_estimate_lam(a, o, As):
         sargs = f"{gnat(R)} {gnmat(a['subs'])} {gzlist(a['xs'])} {gzlist(a['ws'])} {gnlist(a['crng'] or [])}"
     mF = f"(zest_lam_F {fid} {lc} {gzlist(lam)} {As} {sargs})"
     mG = f"(zest_lam_G {fid} {lc} {gzlist(lam)} {As} {sargs} {gnlist(shp)})"
+    if not (o.get("kept", True) and o.get("again", True)):
+        return "false"
     e = (f"zq_close {gq(Fraction(o['F']))} {mF} && zq_close {gq(Fraction(o['F1']))} {mF} && "
          f"scaled_close {gcs} {mG} {gobs(o['G'])} && scaled_close {gcs} {mG} {gobs(o['G1'])}")
     if a["mode"] == "full":
@@ -430,6 +468,9 @@ def oracle_tensor(op, a, o):
     lam = a.get("lam", [1] * R)
     f, g = PF[a["fid"]], PG[a["fid"]]
     if op == "estimate_lam":
+        if o.get("again") is False:
+            return ("fg_est.estimate called twice on the same model object with the same sample returns two different answers"
+                    + ("" if o.get("kept") else " (the first call rewrote the caller's model)"))
         # independent statement of what C12 says here: with lambda_check (or unit weights) the estimate on every entry with unit
         # sample weights is the exact objective of the weighted model; on a sample it is the weighted sample sum of the loss at the
         # weighted model's values
